@@ -1,6 +1,6 @@
 # helpers shared by the per-property rule modules
 import re, collections
-from .core import norm, relloc, Tracer, live, evs, calls, fmt_trace, Broken, cond_event, local_env, subst_path
+from .core import Item, norm, relloc, Tracer, live, evs, calls, fmt_trace, Broken, cond_event, local_env, subst_path
 
 
 def inline_only(*names):
@@ -18,6 +18,12 @@ def nullness(br):
     if br.k != 'branch':
         return None
     p = br.path or ''
+    flip = False
+    while p.startswith('!(') and p.endswith(')'):
+        p = p[2:-1]; flip = not flip
+    if flip:
+        r = nullness(Item(br, path=p))
+        return (r[0], not r[1]) if r else None
     m = re.fullmatch(r'\((.+) (==|!=) nullptr\)', p) or None
     if m:
         return (m.group(1), br.val if m.group(2) == '!=' else (not br.val))
@@ -59,21 +65,73 @@ def who(db, pred):
     return out
 
 
-def check_who(ctx, rid, found, allowed, what, floor=None):
-    """found: {fname: [(f, e)]}; every fname must be in allowed"""
+def check_who(ctx, rid, found, allowed, what, floor=None, db=None):
+    """found: {fname: [(f, e)]}; every fname must be in allowed, or be a helper reached only from allowed functions"""
     for fname, lst in sorted(found.items()):
         f, e = lst[0]
-        ok = fname in allowed
+        ok = fname in allowed or (db is not None and only_reached_from(db, fname, set(allowed)))
+        if not ok and f.get('lambda') and db is not None:
+            pf = db.get(f.get('parent_key')) if f.get('parent_key') else None
+            ok = pf is not None and (pf['nname'] in allowed or only_reached_from(db, pf['nname'], set(allowed)))
         ctx.ob(rid, f, e.get('loc') or f['key'], ok, '%s only from the allowed set (here: %s)' % (what, fname),
                detail={'allowed': sorted(allowed)} if not ok else None, desc='%s from %s' % (what, fname))
+
+
+def class_of(db, f):
+    """normalised class a function (or the function enclosing a closure) belongs to"""
+    g = f
+    n = 0
+    while g is not None and g.get('lambda') and g.get('parent_key') and n < 4:
+        g = db.get(g['parent_key']); n += 1
+    return norm((g or {}).get('class') or '')
+
+
+def is_helper(db, caller, callee):
+    """is `callee` a helper of the code under analysis: a member of the same class (or of the enclosing / a nested class), or a local
+    lambda of the calling function - i.e. code a maintainer may have extracted from the function the rule looks at"""
+    if callee.get('lambda'):
+        return callee.get('parent_key') == caller.get('key') or callee.get('parent_key') == caller.get('parent_key')
+    a, b = class_of(db, caller), class_of(db, callee)
+    if not a or not b:
+        return False
+    return a == b or a.startswith(b + '::') or b.startswith(a + '::')
+
+
+def callers_of(db, fname):
+    out = set()
+    idx = db.__dict__.setdefault('_callers_idx', None)
+    if idx is None:
+        idx = collections.defaultdict(set)
+        for f in db.all_instances():
+            for e in f.events():
+                if e.k in ('call', 'construct') and e.get('callee_key'):
+                    idx[norm(e.get('callee'))].add(f['nname'])
+        db.__dict__['_callers_idx'] = idx
+    return idx.get(fname, set())
+
+
+def only_reached_from(db, fname, allowed, depth=3, _seen=None):
+    """is fname an (extracted) helper all of whose callers, transitively, are in `allowed`?"""
+    _seen = _seen or set()
+    if fname in _seen or depth < 0:
+        return False
+    _seen.add(fname)
+    cs = callers_of(db, fname)
+    if not cs:
+        return False
+    return all(c in allowed or only_reached_from(db, c, allowed, depth - 1, _seen) for c in cs)
 
 
 THOROUGH = [False]      # set by check.py: the thorough tier evaluates path rules on every instantiation, not one per pattern
 
 
-def traces_of(db, name, depth=0, inline=None, exc=None, lambdas=False, per_instance=True, limit=20000, need=1, maxvisit=2):
+def traces_of(db, name, depth=0, inline=None, exc=None, lambdas=False, per_instance=True, limit=20000, need=1, maxvisit=2, helpers=True):
     """[(fn, [traces])] for all instances of function `name`"""
     per_instance = per_instance or THOROUGH[0]
+    if helpers:
+        user = inline
+        depth = max(depth, 3)
+        inline = lambda caller, ev, callee: bool(user and user(caller, ev, callee)) or is_helper(db, caller, callee)
     T = Tracer(db, depth=depth, inline_filter=inline, exc_edges=exc, limit=limit, maxvisit=maxvisit)
     out = []
     fns = db.fns(name, lambdas=lambdas)
@@ -102,8 +160,7 @@ def count_calls(tr, *names, recv=None, maxdepth=99):
 
 def index_of(tr, pred):
     for i, it in enumerate(tr):
-        ev = it.ev if it.k == 'enter' else it
-        if it.k != 'leave' and pred(ev):
+        if it.k not in ('enter', 'leave') and pred(it):
             return i
     return -1
 
@@ -111,10 +168,9 @@ def index_of(tr, pred):
 def all_indices(tr, pred):
     out = []
     for i, it in enumerate(tr):
-        if it.k == 'leave':
+        if it.k in ('enter', 'leave'):
             continue
-        ev = it.ev if it.k == 'enter' else it
-        if pred(ev):
+        if pred(it):
             out.append(i)
     return out
 
